@@ -9,7 +9,7 @@ ASSUMPTIONS = [
     'expression alphabet: operands NUMBER and TRUE (all operand kinds reduce through expression : constant / variable_access and are not distinguished), the 16 binary operator tokens, 6 unary tokens, parentheses; strings RETURN t1..tN ; with N <= 4 exhaustively and N = 5 by cubes (quick: all dead prefixes + all 16 cubes NUMBER <binary operator>, i.e. every pair of adjacent binary operators, + 4 seed-rotated unary/parenthesis cubes; thorough: all 95 viable cubes; N = 6 sampled 3-token cubes in thorough)',
     'oracle = reference precedence table written from the property statement (or < and < comparison (non-associative) < + - | < * / & ^ < %, unary tightest, parentheses group) and a hand-written well-formedness predicate kept honest by the tightness query',
     'the PLY driver loop is modelled in about 40 lines; every witness model is replayed through the real oal.parse (fresh tables) and a reference precedence-climbing parser',
-    'statements / optional words / layout: the parser is only exercised on solver-enumerated variants (33 core programs + 10 carrier statements x 16 optional-word masks x 8x8 gap pairs, sampled by shard); not a verdict over all layouts; text-level totality is C13 (not applicable)',
+    'statements / optional words / layout: the parser is only exercised on solver-enumerated variants (33 core programs + 10 carrier statements x 16 optional-word masks x 8x8 gap pairs, sampled by shard); not a verdict over all layouts; text-level totality is C13',
     'longer strings, other operand kinds and deeper nesting are outside the claim',
 ]
 BIN = ['PLUS', 'MINUS', 'PIPE', 'TIMES', 'DIV', 'MOD', 'AMP', 'CARET', 'LE', 'LESSTHAN', 'DOUBLEEQUAL', 'NOTEQUAL', 'GE', 'GT', 'AND', 'OR']
@@ -63,6 +63,9 @@ def conditions(tier, seed):
         out.append(Cond('layout_s%d' % sh, 'c07_layout.py', dict(shard=sh, nshards=ns), timeout=900 if tier == 'quick' else 6000,
                         bound='statement productions x optional words x gap pairs (shard %d/%d of 43 x 16 x 144)' % (sh, ns),
                         case_split=['ci (program, optional-word mask, gap pair)'], realised=['program text']))
+    out.append(Cond('layout_edges', 'c07_layout.py', {}, func='check_edges', timeout=900 if tier == 'quick' else 3000,
+                    bound='43 programs x 11 layouts before the first token x 11 layouts behind the last token (incl. a line comment the text ends in)',
+                    case_split=['program', 'lead', 'tail'], realised=['program text'], twin=False))
     return out
 
 
